@@ -10,7 +10,7 @@ Proof.
   injection H as <-. unfold with_th.
   set (c' := join (clk (T s t)) (pend (T s t))).
   set (x' := {| clk := c'; pend := pend (T s t); refs := refs (T s t);
-                excl := excl (T s t); mustfree := mustfree (T s t); started := true |}).
+                excl := excl (T s t); mustfree := mustfree (T s t); started := true; lend := lend (T s t) |}).
   assert (HT : forall M W R l u, T {| msgs := M; Wc := W; Rc := R; live := l; ths := upd (ths s) t x' |} u
                          = if Nat.eqb u t then x' else T s u) by (intros; apply T_upd; auto).
   assert (Htot : total (upd (ths s) t x') = total (ths s)).
@@ -21,11 +21,13 @@ Proof.
   - intros u. rewrite HT. destruct (Nat.eqb_spec u t) as [->|Hne']; cbn [refs clk x'].
     + intros Hr. eapply cle_trans; [apply (J2 s I t Hr) | exact Hcc].
     + apply (J2 s I u).
-  - intros Hl u. destruct (J3 s I Hl u) as [H3|[[h [Hh H3]]|[h [Hm H3]]]]; [left; exact H3| |].
+  - intros Hl u. destruct (J3 s I Hl u) as [H3|[[h [Hh H3]]|[[h [Hm H3]]|[h [Hb H3]]]]]; [left; exact H3| | |].
     + right. left. exists h. rewrite HT. destruct (Nat.eqb_spec h t) as [->|Hne']; cbn [refs clk x']; [|auto].
       split; [lia|]. specialize (Hcc u). lia.
-    + right. right. exists h. rewrite HT. destruct (Nat.eqb_spec h t) as [->|Hne']; cbn [mustfree clk x']; [|auto].
+    + right. right. left. exists h. rewrite HT. destruct (Nat.eqb_spec h t) as [->|Hne']; cbn [mustfree clk x']; [|auto].
       split; [exact Hm|]. specialize (Hcc u). lia.
+    + right. right. right. exists h. rewrite HT. destruct (Nat.eqb_spec h t) as [->|Hne']; cbn [lend clk x']; [|auto].
+      split; [exact Hb|]. specialize (Hcc u). lia.
   - intros u. rewrite HT. destruct (Nat.eqb_spec u t) as [->|Hne']; cbn [mustfree clk pend x'].
     + intros Hm. destruct (J4 s I t Hm) as (Hl & H0 & HW & HR & Hu). repeat split; auto.
       * rewrite Htot; auto.
@@ -51,6 +53,7 @@ Proof.
     apply (J8 s I u).
   - intros Hl H0. rewrite Htot in H0. destruct (J9 s I Hl H0) as (h & Hm). exists h. rewrite HT.
     destruct (Nat.eqb_spec h t) as [->|]; cbn [mustfree x']; exact Hm.
+  - apply J10_upd; auto. intros (c0 & Hc0). destruct (J10 s I c0 t Hc0) as (_ & _ & Hr' & _ & He' & _). auto.
 Qed.
 
 (* ---------- AReadM: the freeing thread reads the header after its fence ---------- *)
@@ -67,7 +70,7 @@ Proof.
   apply cleb_spec in Hfen.
   set (c' := tick (clk (T s t)) t).
   set (x' := {| clk := c'; pend := pend (T s t); refs := refs (T s t);
-                excl := excl (T s t); mustfree := true; started := true |}).
+                excl := excl (T s t); mustfree := true; started := true; lend := lend (T s t) |}).
   assert (HT : forall M W R l u, T {| msgs := M; Wc := W; Rc := R; live := l; ths := upd (ths s) t x' |} u
                          = if Nat.eqb u t then x' else T s u) by (intros; apply T_upd; auto).
   assert (Htot : total (upd (ths s) t x') = total (ths s)).
@@ -78,11 +81,12 @@ Proof.
   - intros _. destruct (J1 s I Hl) as [Hne Hv]. split; [auto|]. rewrite Htot. exact Hv.
   - intros u. rewrite HT. destruct (Nat.eqb_spec u t) as [->|Hne']; cbn [refs clk x']; rewrite Hr0; lia.
   - intros _ u. rewrite get_setc. destruct (Nat.eqb_spec u t) as [->|Hne'].
-    + right. right. exists t. rewrite HT, Nat.eqb_refl. cbn [mustfree clk x']. split; [reflexivity|lia].
-    + destruct (J3 s I Hl u) as [H3|[[h [Hh H3]]|[h [Hm H3]]]]; [left; exact H3| |].
+    + right. right. left. exists t. rewrite HT, Nat.eqb_refl. cbn [mustfree clk x']. split; [reflexivity|lia].
+    + destruct (J3 s I Hl u) as [H3|[[h [Hh H3]]|[[h [Hm H3]]|[h [Hb H3]]]]]; [left; exact H3| | |].
       * rewrite Hr0 in Hh. lia.
-      * right. right. exists h. rewrite HT. destruct (Nat.eqb_spec h t) as [->|Hne'']; cbn [mustfree clk x']; [|auto].
+      * right. right. left. exists h. rewrite HT. destruct (Nat.eqb_spec h t) as [->|Hne'']; cbn [mustfree clk x']; [|auto].
         split; [reflexivity|]. specialize (Hcc u). lia.
+      * exfalso. destruct (lend (T s h)) as [|q] eqn:El; [contradiction|]. exact (borrower_no_mustfree s h q t I El Hmf).
   - intros u. rewrite HT. destruct (Nat.eqb_spec u t) as [->|Hne']; cbn [mustfree clk pend x'].
     + intros _. split; [reflexivity|]. split; [rewrite Htot; exact H0|]. split; [|split].
       * subst c'. pw.
@@ -98,4 +102,5 @@ Proof.
   - intros u. rewrite HT. destruct (Nat.eqb_spec u t) as [->|Hne']; cbn [started x']; [discriminate|].
     apply (J8 s I u).
   - intros _ _. exists t. rewrite HT, Nat.eqb_refl. reflexivity.
+  - apply J10_upd; auto. intros (c0 & Hc0). exfalso. exact (borrower_no_mustfree s c0 t t I Hc0 Hmf).
 Qed.
